@@ -25,10 +25,10 @@ Example parse_lags_leads_params :
        mkSymbol (Some "exp") TFunction None None None None; sym "K" TExogenous 0 0 None None].
 Proof. vm_compute. reflexivity. Qed.
 
-(* ---- own_errors_only: the one foreign exception left (NEW finding): a fence inside a bracketed statement
-   satisfies equation_re through its first alternative although the statement has no '=' ---- *)
+(* ---- a fence inside a bracketed statement satisfies equation_re through its first alternative although the statement
+   has no '=': ParserError since fix 1c7ed70 (it used to be the one foreign exception left, ValueError) ---- *)
 Definition eqless_fence : string := lines ["("; "```"; "```"; ")"].
-Example eqless_fence_value_error : parse_model_M chk_none false eqless_fence = PErr ValueError.
+Example eqless_fence_parser_error : parse_model_M chk_none false eqless_fence = PErr ParserError.      (* 1c7ed70; it was ValueError *)
 Proof. vm_compute. reflexivity. Qed.
 Example eqless_fence_outside_guard : no_eqless_statement eqless_fence = false.
 Proof. vm_compute. reflexivity. Qed.
